@@ -61,12 +61,19 @@ func (s *State) ParseConfig(data []byte, fName string) (
 
 func checkRaw(c *PanConfig) error {
 	re := regexp.MustCompile(`^r\d`)
+	// Names of rules from IPv6.
+	re6 := regexp.MustCompile(`^v6r\d`)
 	for _, d := range c.Devices.Entries {
 		for _, v := range d.Vsys {
 			for _, r := range v.Rules {
 				if re.MatchString(r.Name) {
 					return fmt.Errorf(
 						"Must not use rule name starting with 'r<NUM>': %s",
+						r.Name)
+				}
+				if re6.MatchString(r.Name) {
+					return fmt.Errorf(
+						"Must not use rule name starting with 'v6r<NUM>': %s",
 						r.Name)
 				}
 			}
